@@ -34,6 +34,20 @@ def PyFloat.toRat : PyFloat → Rat
   | .fin neg d => (if neg then -1 else 1) * d.toRat
   | _ => 0
 
+/-- SPECIFICATION of `FPNum.convert` on a normalised finite non-zero magnitude `m / 2^a · 2^e` (`2^a ≤ m < 2^(a+1)`), for a
+    format with exponent bias `bias`, all-ones exponent field `emask` and `mb` trailing significand bits  ↦ (exponent
+    field, mantissa field).  The magnitude is ROUNDED TOWARD ZERO (bits below the target's last place are dropped):
+    normal range: significand `⌊m·2^mb / 2^a⌋`; below the smallest normal: `⌊|x| / 2^(1−bias−mb)⌋` (subnormal, possibly 0);
+    at or above `2^(emask−bias)`: infinity. -/
+def FPNum.truncFields (bias emask : Int) (mb a : Nat) (e m : Int) : Int × Int :=
+  if e + bias ≥ emask then (emask, 0)
+  else if 1 ≤ e + bias then (e + bias, m * (2:Int)^mb / (2:Int)^a - (2:Int)^mb)
+  else (0, m * (2:Int)^mb / (2:Int)^(a + (1 - bias - e).toNat))
+
+/-- the magnitude denoted by the fields (E, M) of a `(bias, mb)` format, E below the all-ones exponent -/
+def IEEE.fieldsDy (bias : Int) (mb : Nat) (E M : Int) : Dy :=
+  if E == 0 then ⟨M, 1 - bias - mb⟩ else ⟨(2:Int)^mb + M, E - bias - mb⟩
+
 namespace IEEE
 
 /-- an interchange format: exponent bits, trailing-significand bits -/
@@ -65,6 +79,24 @@ def decode (f : Format) (b : Nat) : PyFloat :=
   else .fin s ⟨2 ^ f.mbits + m, (e : Int) - f.bias - f.mbits⟩
 
 end IEEE
+
+/-- the interchange format a format name of `FPNum.convert` / `FPNum(v, fmt)` stands for -/
+def Fmt.ieee : Fmt → IEEE.Format
+  | .hp => IEEE.half
+  | .sp => IEEE.single
+  | .dp => IEEE.double
+
+/-- the truncation specification as a bit pattern of `fmt`, for a normalised finite FPNum (`p` a power of two) -/
+def FPNum.truncBits (fmt : Fmt) (x : FPNum) : Int :=
+  let c := FPNum.fmtConsts fmt
+  let f := fmt.ieee
+  let s : Int := if x.s > 0 then 0 else 1
+  let em : Int × Int := if x.m == 0 then (0, 0) else FPNum.truncFields c.1 c.2.1 f.mbits x.p.toNat.log2 x.e x.m
+  s * (2:Int)^(f.ebits + f.mbits) + em.1 * (2:Int)^f.mbits + em.2
+
+/-- the class invariant, decidable form (for the driver) -/
+def FPNum.isNormalised (x : FPNum) : Bool :=
+  decide x.Finite && x.p == (2:Int)^x.p.toNat.log2 && (x.m == 0 || (decide (x.p ≤ x.m) && decide (x.m < 2 * x.p)))
 
 /-- two's complement of width `w`: the signed reading of an unsigned `w`-bit value -/
 def c2Signed (w : Nat) (x : Int) : Int := if x % 2 ^ w < 2 ^ (w - 1) then x % 2 ^ w else x % 2 ^ w - 2 ^ w
